@@ -61,3 +61,14 @@ package fractal
 //@   requires lock-entry: nolocks()
 //@ func (*LocalSuperior).onReportSignature
 //@   requires lock-entry: nolocks()
+
+// a report is handed to its waiter inside the critical section that looked the waiter up (RemoveTask cannot close the
+// channel in between), and only broadcast tasks become the task replayed to late subscribers
+//@ func (*LocalSuperior).submitCollectorMsg
+//@   assert-at send report-sent-under-the-task-lock-unmodified: held[addr(ls.taskCacheLock)] && value == resp
+//@ func (*LocalSuperior).AddTask
+//@   assert-at store LocalSuperior.latestTask only-a-broadcast-task-becomes-the-latest-task: collectorID == uuid.Nil && value == req && target == ls
+//@ func (*LocalSuperior).RemoveTask
+//@   assert-at store LocalSuperior.latestTask cleared-only-for-the-removed-task: value == nil && lastresult("ID") == id
+//@ func (*LocalSuperior).Subscribe
+//@   assert-at call Send late-subscriber-gets-the-latest-broadcast-task: arg2 == lastresult("ID") && arg3 != nil
